@@ -715,6 +715,15 @@ def run_monitored(case, journal):
         stats['probe.W_checked_after_cpl_restore'] = 1
     log.add('monitored', inst['kind'], mon.calls, sorted((k, '%.1e' % v) for k, v in mon.worst.items()))
     v = None
+    # The invariants are a statement about solves that are going somewhere.  A run that has been diverging or
+    # stalling for more than 30 iterations and ends 'unknown' at the iteration limit (entries of size 1e20, the
+    # numerical breakdown of F27) carries scalings nobody can use: drift found only there is counted, not judged.
+    status = out.res.get('status') if isinstance(out.res, dict) else None
+    if mon.failures and status not in ('optimal', 'primal infeasible', 'dual infeasible'):
+        late = [f for f in mon.failures if isinstance(f[2], (tuple, list)) and len(f[2]) > 1 and isinstance(f[2][1], int) and f[2][1] > 30]
+        if late:
+            stats['probe.late_drift_in_solve_that_did_not_converge'] = len(late)
+            mon.failures = [f for f in mon.failures if f not in late]
     if mon.failures:
         name, val, ph = mon.failures[0]
         v = {'oracle': 'scaling-invariant', 'klass': 'scaling-invariant:%s:%s' % (inst['kind'], name),
